@@ -91,7 +91,12 @@ impl<'a> PrettyPrinter<'a> {
 
     /// In math mode, we have `$fun(1, 2; 3, 4)$ == $fun(#(1, 2), #(3, 4))$`.
     pub(super) fn convert_array(&'a self, ctx: Context, array: Array<'a>) -> ArenaDoc<'a> {
-        let ctx = ctx.with_mode(Mode::CodeCont);
+        // A row of math arguments stays in math mode: calls nested in it have math arguments, too.
+        let ctx = if ctx.mode.is_math() {
+            ctx
+        } else {
+            ctx.with_mode(Mode::CodeCont)
+        };
 
         // Whether the array has parens.
         // This is also used to determine whether we need to add a trailing comma.
